@@ -32,6 +32,8 @@ def run(ctx):
     lib_gatefn.gate_dispatch(ctx, P)
     lib_gatefn.gate_spec(ctx, P)
     lib_gatefn.gate_loops(ctx, P)
+    from . import lib_kind3
+    lib_kind3.error_codes(ctx, P)
     # an altered data region is rejected by the validity gate that tskit.load passes: its id guards must be exact
     gate = {f for f in P.tus["tables"].funcs if f.startswith("tsk_table_collection_check_")}
     seen = lib_guards.analyse(ctx, P, funcs=gate)
